@@ -528,6 +528,45 @@ func ruleLEXTOK(c *Ctx, r *Report) {
 		}
 	}
 	r.floor(rule, "token constructions", n, 3)
+	// a token is never edited after it was cut: every store to a field of a lex.Token in package lex
+	// must be one of the field stores of the constructions above
+	for _, f := range c.Funcs {
+		if fnPkgPath(f) != pkgLex {
+			continue
+		}
+		for _, b := range f.Blocks {
+			for _, in := range b.Instrs {
+				st, ok := in.(*ssa.Store)
+				if !ok {
+					continue
+				}
+				fa, ok := st.Addr.(*ssa.FieldAddr)
+				if !ok {
+					continue
+				}
+				bt := fa.X.Type()
+				if p, ok := bt.(*types.Pointer); ok {
+					bt = p.Elem()
+				}
+				if !isNamed(bt, pkgLex, "Token") {
+					continue
+				}
+				// base must be a fresh local literal (no whole-value store into it)
+				okBase := false
+				if a, ok := fa.X.(*ssa.Alloc); ok {
+					okBase = true
+					for _, ref := range *a.Referrers() {
+						if s2, ok := ref.(*ssa.Store); ok && s2.Addr == ssa.Value(a) {
+							okBase = false
+						}
+					}
+				}
+				if !okBase {
+					r.bad(rule, fnName(f)+"|token-edited|"+fieldName(fa.X.Type(), fa.Field), c.instrPos(st), fmt.Sprintf("%s modifies field %s of a token after it was cut from the input (%s): the token text is no longer the slice of the input it was lexed from", fnName(f), fieldName(fa.X.Type(), fa.Field), c.key(st.Val, nil)))
+				}
+			}
+		}
+	}
 }
 
 // depth dataflow -------------------------------------------------------------------------------
@@ -1039,6 +1078,39 @@ func ruleWSSET(c *Ctx, r *Report) {
 		}
 		if !one {
 			r.bad(rule, "skip|unconstrained-cycle", c.instrPos(cp.head.Instrs[0]), "the skipping state has a cycle that discards a rune without testing that it is whitespace (LEX-SKIP: only whitespace may be dropped between tokens)")
+		}
+	}
+	// runes that are NOT whitespace of the query language must not be skipped: fold every cycle of the
+	// skipping state at a probe set (other Unicode spaces, controls, and ordinary token characters)
+	probes := map[int64]string{'\v': "vertical tab", '\f': "form feed", 0x85: "U+0085 NEL", 0xA0: "U+00A0 no-break space", 0x2028: "U+2028 line separator", 0x3000: "U+3000 ideographic space", 0: "NUL", '#': "#", 'a': "a", '0': "0", '"': "quote", '(': "("}
+	var pks []int64
+	for p := range probes {
+		pks = append(pks, p)
+	}
+	sort.Slice(pks, func(i, j int) bool { return pks[i] < pks[j] })
+	for _, pr := range pks {
+		for _, cp := range cps {
+			infeasible, unknown := false, false
+			for _, a := range cp.atoms {
+				if a.Subj != rk && a.Val != rk {
+					continue
+				}
+				f, known := c.atomFalseAt(a, rk, pr)
+				if !known {
+					unknown = true
+				} else if f {
+					infeasible = true
+				}
+			}
+			if infeasible {
+				continue
+			}
+			key := fmt.Sprintf("skip|extra|%s", probes[pr])
+			if unknown {
+				r.bad(rule, key, c.pos(lr.Initial.Pos()), fmt.Sprintf("cannot establish that the skipping state does not discard %s (condition not foldable)", probes[pr]))
+			} else {
+				r.bad(rule, key, c.pos(lr.Initial.Pos()), fmt.Sprintf("the skipping state discards %s, which is not whitespace of the query language (space, tab, newline, carriage return): such a character is dropped silently instead of being a lexical error or part of a term", probes[pr]))
+			}
 		}
 	}
 	names := map[int64]string{' ': "space", '\t': "tab", '\n': "newline", '\r': "carriage-return"}
